@@ -1,7 +1,7 @@
 #!/bin/sh
 # usage: tools/try_patch.sh <patch.diff> <Cxx> [Cyy ...]  — applies to /repo, runs quick checks, reverts
 P="$1"; shift
-git -C /repo apply "$P" || { echo "patch does not apply"; exit 3; }
+git -C /repo apply "$(realpath "$P")" || { echo "patch does not apply"; exit 3; }
 for c in "$@"; do
   out=$(cd /verif && ./check "$c" quick 2>&1); rc=$?
   echo "[$c rc=$rc] $(echo "$out" | grep -E 'VIOLATION|KNOWN|OK|INFRA' | head -3)"
